@@ -113,6 +113,8 @@ package dns
 //@   assert at "wire := make([]byte, Len(r1)+1)" kept: h.Name == cname && h.Ttl == s.OrigTtl
 //@   callsite "PackRR" plain: same(arg0, r1) && arg2 == 0 && arg3 == nil && !arg4
 //@   callsite "Join" wild: len(labels) > s.Labels
+// RFC 4035 5.3.2: with Labels 0 (a wildcard directly under the root) the signed owner is "*." itself
+//@   assert at "h.Name = CanonicalName(h.Name)" wildroot: s.Labels == 0 && len(labels) > 0 ==> h.Name == "*."
 // RFC 4034 6.3: every record's canonical form takes part in the sort; duplicates are dropped after sorting, by
 // comparing each form with its predecessor in sorted order
 //@   callsite "Sort" whole: len(wires) == len(rrset)
